@@ -124,6 +124,10 @@ Fixpoint first_version (f : nat -> bool) (lo : nat) (n : nat) : option nat :=
   | O => None
   | S n' => if f lo then Some lo else first_version f (S lo) n'
   end.
+(* is the observed outcome of an announce the one the model gives under key-set version v? *)
+Definition ann_ok (cfg : config) (vs : list (list (bytes * Z))) (now : Z) (ih : bytes) (param : option tokv)
+           (o : Z) (o_msg : bytes) (v : nat) : bool :=
+  fst (chk_announce cfg (publish (nth v vs [])) now ih param o o_msg) =? 0.
 Fixpoint chk_overlap (cfg : config) (vs : list (list (bytes * Z))) (evs : list oev)
          (srv ret prev lo : nat) (reason : Z) : Z :=
   match evs with
@@ -132,8 +136,7 @@ Fixpoint chk_overlap (cfg : config) (vs : list (list (bytes * Z))) (evs : list o
   | OReturned v :: r => chk_overlap cfg vs r srv (Nat.max ret v) prev lo reason
   | OAnnS :: r => chk_overlap cfg vs r srv ret prev (Nat.max ret prev) reason
   | OAnnE now ih param o o_msg :: r =>
-    let ok v := fst (chk_announce cfg (publish (nth v vs [])) now ih param o o_msg) =? 0 in
-    match first_version ok lo (S srv - lo) with
+    match first_version (ann_ok cfg vs now ih param o o_msg) lo (S srv - lo) with
     | Some v => chk_overlap cfg vs r srv ret v lo reason
     | None =>
       (* no version explains it: report the clause the announce breaks under the NEWEST version served *)
